@@ -57,7 +57,9 @@ META = {
         "that returns the list of parts (as plain text when the caller maps re.escape over them), and an assembly helper "
         "`_join(parts)` - scan, escape step and assembly are composed for every abstract pattern. Every "
         "translated pattern may contain at most one backtracking ANY* (a failed fullmatch over k independent `.*` is exponential). "
-        "R2 (API): match_with_wildcard returns True exactly under `pattern is None`, otherwise fullmatch (or match of an "
+        "R2 (API): a return expression is taken apart into its outcomes first (`return A or B` with A a comparison = `if A: return True` "
+        "then `return B`; a conditional expression = its two branches), then: "
+        "match_with_wildcard returns True exactly under `pattern is None`, otherwise fullmatch (or match of an "
         "expression the translator ends in \\Z - not `$`, which also matches before a final line feed) of the unmodified name against "
         "the regex built from the unmodified pattern; at every call of match_with_wildcard in the package the pattern is never "
         "tested for truthiness / emptiness next to the match (only None means 'no filter'; '' matches exactly the empty value); a pattern the "
@@ -84,7 +86,7 @@ META = {
         "using a filter as a literal key unless that alternative is chosen only under `'*' not in <filter>`), that no break/return cuts "
         "the enumeration short and that entries are skipped only after a failed wildcard test. "
         "R4 (callers and the inv: link): the destination is taken apart literally (`href.partition(':')[2].partition('#')`, not "
-        "urlparse, which drops a `?query`), after normalizeLinkText plus the `%25` -> `%` step, and the path is split with "
+        "urlparse, which drops a `?query`; the `#` cut behind the path string and behind the name pattern handed to the lookup - in the function or in the helper that returns the parts - is `partition('#')`, the FIRST '#': entry names contain '#', `rpartition` is understood by the role trace and reported as a violation, any other cut is an analysis error), after normalizeLinkText plus the `%25` -> `%` step, and the path is split with "
         "maxsplit 2 so that the object type is the remainder (types contain ':'); a part that is left empty is handed on as None "
         "(`part or None`), i.e. as an omitted filter - where the destination is taken apart or, failing that, in every "
         "implementation of get_inventory_matches (the Sphinx renderer overrides it); a parts list padded in place "
@@ -1254,13 +1256,13 @@ def r2_api(corpus: Corpus, rep: Report, tier: str):
         raise Unsupported(f"match_with_wildcard{tuple(mw.params)}: expected (name, pattern)")
     p_name, p_pat = mw.params
     cfg = get_cfg(mw)
-    rets = [n for n in mw.local_nodes() if isinstance(n, ast.Return)]
+    rets = [vr for n in sorted((n for n in mw.local_nodes() if isinstance(n, ast.Return)), key=lambda n: (n.lineno, n.col_offset)) for vr in _virtual_returns(n, n.value, list(cfg.guards(n)))]
     none_true = []
     full = []
     shortcuts = []  # returns that decide the match with a plain string test of the name (regex-free fast paths)
     for r in rets:
         v = r.value
-        gs = cfg.guards(r)
+        gs = r.gs
         if isinstance(v, ast.Constant) and v.value is True:
             none_true.append((r, gs))
             continue
@@ -1335,7 +1337,7 @@ def r2_api(corpus: Corpus, rep: Report, tier: str):
         k = f"{mw.fq}|a regex-free shortcut decides the same as the translated pattern"
         classes = [STAR, BSL, OTHER]
         rep_ch = "\x01"
-        ordered = sorted(rets, key=lambda r_: (r_.lineno, r_.col_offset))
+        ordered = rets  # statement order, the alternatives of one return expression in evaluation order
         witness = None
         n_short = 0
         for n_ in range(0, 5):
@@ -1343,7 +1345,7 @@ def r2_api(corpus: Corpus, rep: Report, tier: str):
                 text = "".join(rep_ch if c_ == OTHER else c_ for c_ in seq)
                 taken = None
                 for r_ in ordered:
-                    if all(bool(_pat_eval(t_, text, p_pat)) == pol_ for t_, pol_ in cfg.guards(r_)):
+                    if all(bool(_pat_eval(t_, text, p_pat)) == pol_ for t_, pol_ in r_.gs):
                         taken = r_
                         break
                 if taken is None or not any(taken is r0 for r0, _ in shortcuts):
@@ -1458,6 +1460,34 @@ def r2_api(corpus: Corpus, rep: Report, tier: str):
         elif any(c.func.attr == "fullmatch" for c in uses):
             rep.ok("C19.R2", k, fi.module.site(call))
     rep.expect_min("C19.R2", 10, "None rule, fullmatch, cache signature, call site, callers of match_with_wildcard")
+
+
+class VRet:
+    """One outcome of a return statement: `return A or B` (A a comparison, hence True when it holds) is
+    `if A: return True` followed by `return B`; `return X if C else Y` is `if C: return X` / `return Y`.
+    ``gs`` = the guards of the statement plus the tests that select this alternative; sites are the statement's."""
+
+    def __init__(self, ret: ast.Return, value, gs):
+        self.ret, self.value, self.gs = ret, value, gs
+        self.lineno, self.col_offset = ret.lineno, ret.col_offset
+        self.end_lineno, self.end_col_offset = getattr(ret, "end_lineno", ret.lineno), getattr(ret, "end_col_offset", ret.col_offset)
+
+
+def _virtual_returns(ret: ast.Return, v, gs: list) -> list:
+    def guard(t: ast.expr, pol: bool):
+        while isinstance(t, ast.UnaryOp) and isinstance(t.op, ast.Not):
+            t, pol = t.operand, not pol
+        return t, pol
+
+    if isinstance(v, ast.BoolOp) and isinstance(v.op, ast.Or) and isinstance(v.values[0], ast.Compare):
+        # a comparison yields a bool: when it holds the statement returns True, otherwise the value of the rest
+        a = v.values[0]
+        rest = v.values[1] if len(v.values) == 2 else ast.copy_location(ast.BoolOp(op=ast.Or(), values=v.values[1:]), v.values[1])
+        true_ = ast.copy_location(ast.Constant(value=True), a)
+        return [VRet(ret, true_, gs + [guard(a, True)])] + _virtual_returns(ret, rest, gs + [guard(a, False)])
+    if isinstance(v, ast.IfExp):
+        return _virtual_returns(ret, v.body, gs + [guard(v.test, True)]) + _virtual_returns(ret, v.orelse, gs + [guard(v.test, False)])
+    return [VRet(ret, v, gs)]
 
 
 def _literal_name_test(v: ast.expr, mw: FunctionInfo, p_name: str):
@@ -2565,14 +2595,32 @@ def _single_def(e: ast.expr, fi: FunctionInfo) -> ast.expr:
     return e
 
 
-def _partition_elem(e: ast.expr, fi: FunctionInfo, sep: str):
-    """(receiver, index) when ``e`` is element ``index`` of `<receiver>.partition(sep)` (directly or through a local)."""
+def _partition_call(e: ast.expr, fi: FunctionInfo, sep: str, methods=("partition",)):
+    """(call, index) when ``e`` is element ``index`` of `<receiver>.partition(sep)` (directly or through a local);
+    ``methods`` = the accepted spellings (`rpartition` cuts at the LAST separator: same tuple shape, another cut)."""
     e = _single_def(e, fi)
     if isinstance(e, ast.Subscript) and isinstance(e.slice, ast.Constant) and type(e.slice.value) is int:
         c = _single_def(e.value, fi)
-        if isinstance(c, ast.Call) and isinstance(c.func, ast.Attribute) and c.func.attr == "partition" and len(c.args) == 1 and not c.keywords and isinstance(c.args[0], ast.Constant) and c.args[0].value == sep:
-            return c.func.value, e.slice.value
+        if isinstance(c, ast.Call) and isinstance(c.func, ast.Attribute) and c.func.attr in methods and len(c.args) == 1 and not c.keywords and isinstance(c.args[0], ast.Constant) and c.args[0].value == sep:
+            return c, e.slice.value
     return None
+
+
+def _partition_elem(e: ast.expr, fi: FunctionInfo, sep: str, methods=("partition",)):
+    """(receiver, index) when ``e`` is element ``index`` of `<receiver>.partition(sep)` (directly or through a local)."""
+    pc = _partition_call(e, fi, sep, methods)
+    return (pc[0].func.value, pc[1]) if pc is not None else None
+
+
+# where the destination is cut into `<path>#<target>`: both spellings give (before, sep, after); WHICH '#' is judged
+# by the "target starts after the first '#'" obligation of _href_shape_check, not by the role trace
+HASH_CUTS = ("partition", "rpartition")
+
+
+def _hash_cut(e: ast.expr, fi: FunctionInfo) -> ast.Call | None:
+    """The `<x>.partition('#')` / `<x>.rpartition('#')` call that ``e`` (path or target string) is an element of."""
+    pc = _partition_call(_or_none(e) or e, fi, "#", HASH_CUTS)
+    return pc[0] if pc is not None else None
 
 
 def _path_string(e: ast.expr, fi: FunctionInfo):
@@ -2582,7 +2630,7 @@ def _path_string(e: ast.expr, fi: FunctionInfo):
     if isinstance(x, ast.Attribute) and x.attr == "path" and _urlparse_var(x.value, fi):
         call = _single_def(x.value, fi)
         return "urlparse", (call.args[0] if isinstance(call, ast.Call) and call.args else None)
-    pe = _partition_elem(e, fi, "#")
+    pe = _partition_elem(e, fi, "#", HASH_CUTS)
     if pe is not None and pe[1] == 0:
         rest = _partition_elem(pe[0], fi, ":")
         if rest is not None and rest[1] == 2:
@@ -2596,7 +2644,7 @@ def _target_string(e: ast.expr, fi: FunctionInfo):
     if isinstance(x, ast.Attribute) and x.attr == "fragment" and _urlparse_var(x.value, fi):
         call = _single_def(x.value, fi)
         return "urlparse", (call.args[0] if isinstance(call, ast.Call) and call.args else None)
-    pe = _partition_elem(e, fi, "#")
+    pe = _partition_elem(e, fi, "#", HASH_CUTS)
     if pe is not None and pe[1] == 2:
         rest = _partition_elem(pe[0], fi, ":")
         if rest is not None and rest[1] == 2:
@@ -3277,6 +3325,42 @@ def _href_shape_check(rep: Report, fi: FunctionInfo, where: FunctionInfo, hp: "H
                       "so `<inv:k:std?:x#index>` is filtered as `k:std` with the type dropped and an inventory keyed `what?` cannot be addressed")
     else:
         rep.ok("C19.R4", k, where.module.site(split_call))
+    # (1b) `inv:<path>#<target>`: the target (the name pattern) is everything after the FIRST '#'. Entry names contain '#'
+    #      (`faq#install`), the path (key:domain:type) does not; cutting at the last '#' moves the head of the name into the
+    #      type / inventory pattern, so the entry that matches all four coordinates in full is reported as missing
+    k = f"{fi.fq}|the name pattern of the link is everything after the first '#' of the destination"
+    cuts: list[tuple[FunctionInfo, ast.Call]] = []
+    if how[0] == "literal":
+        pc = _hash_cut(path_expr, where)
+        if pc is None:
+            raise Unsupported(f"{where.qualname}: the '#' cut behind the path string `{short(path_expr, 40)}` was not found")
+        cuts.append((where, pc))
+    tvals = [kw.value for kw in lookup.keywords if kw.arg in ("target", "targets")]
+    if len(tvals) != 1:
+        raise Unsupported(f"{fi.qualname}: the name pattern is not handed to the lookup by one keyword")
+    hc_ = _helper_component(tvals[0], fi, ctx)
+    if hc_ is not None:
+        tsrc = []
+        for _r, comps in _return_components(ctx[0], hc_[0]):
+            if hc_[1] not in comps:
+                raise Unsupported(f"{hc_[0].qualname}: returned value lacks component {hc_[1]}")
+            tsrc.append((hc_[0], comps[hc_[1]]))
+    else:
+        tsrc = [(fi, tvals[0])]
+    for f_, e_ in tsrc:
+        tc = _hash_cut(e_, f_)
+        if tc is not None:
+            if all(tc is not c_ for _f, c_ in cuts):
+                cuts.append((f_, tc))
+        elif _target_string(_or_none(e_) or e_, f_) is None and not (isinstance(e_, ast.Constant) and e_.value is None):
+            raise Unsupported(f"{f_.qualname}: origin of the name pattern `{short(e_, 40)}` not understood")
+    last = [(f_, c_) for f_, c_ in cuts if c_.func.attr != "partition"]
+    if last:
+        f_, c_ = last[0]
+        rep.violation("C19.R4", k, f_.module.site(c_), f"`{short(c_, 50)}` cuts the destination at the LAST '#': `<inv:key:std:label#faq#install>` filters for type `label#faq` and name `install` "
+                      "(and `<inv:#faq#install>` for inventory `#faq`), so the entry named `faq#install` - which matches all four coordinates in full - is reported as \"No matches\" and no reference is rendered")
+    else:
+        rep.ok("C19.R4", k, cuts[0][0].module.site(cuts[0][1]) if cuts else where.module.site(split_call), "urlparse" if not cuts else "partition('#')")
     # (2) the object type is the remainder of the path (types contain ':', e.g. rst:directive:option)
     k = f"{fi.fq}|the object type is everything after the second ':' of the path"
     if canon == "remainder":
@@ -3856,7 +3940,7 @@ def r4_link_paths(corpus: Corpus, rep: Report, tier: str):
             rep.ok("C19.R4", k, where.module.site(uri), unparse(uri)[:100])
         else:
             rep.violation("C19.R4", k, where.module.site(uri), verdict)
-    rep.expect_min("C19.R4", 36, "13 pass-through keywords + 2 x (order, 3 count classes, first match, refuri)")
+    rep.expect_min("C19.R4", 37, "13 pass-through keywords + 2 x (order, 3 count classes, first match, refuri) + the '#' cut of the destination")
 
 
 def _single_return(f: FunctionInfo) -> ast.expr | None:
@@ -4231,6 +4315,17 @@ def mutants(corpus: Corpus):
         add("c19-href-parsed-as-url", "C19.R4", base, prt, f"{tg[0]}, {tg[2]} = urlparse({hv}).path, urlparse({hv}).fragment", "split literally")
     else:
         out.append(("c19-href-parsed-as-url", "literal partition of the destination (fix 0aebc8a) not found / urlparse not imported"))
+    # the name pattern starts after the FIRST '#' (entry names contain '#'): the cut moved to the last one, in one
+    # statement, and for the target only (the path still ends at the first '#', the middle of the name is lost)
+    hcut = find_node(rl, lambda n: isinstance(n, ast.Call) and isinstance(n.func, ast.Attribute) and n.func.attr == "partition" and len(n.args) == 1 and unparse(n.args[0]) == "'#'")
+    add("c19-href-cut-at-last-hash", "C19.R4", base, hcut, f"{unparse(hcut.func.value)}.rpartition('#')" if hcut is not None else "", "after the first '#'")
+    if prt is not None and hcut is not None and prt.value is hcut:
+        tg = [unparse(e) for e in prt.targets[0].elts]
+        ind = " " * prt.col_offset
+        rcv = unparse(hcut.func.value)
+        add("c19-href-target-cut-at-last-hash", "C19.R4", base, prt, f"{tg[0]} = {rcv}.partition('#')[0]\n{ind}{tg[2]} = {rcv}.rpartition('#')[2]", "after the first '#'")
+    else:
+        out.append(("c19-href-target-cut-at-last-hash", "three-way unpacking of the '#' partition not found"))
     # a2a9a1a (inventories re-loaded for the configuration of every render): revert + the class "dropped only when the keys change"
     sr = base.func("DocutilsRenderer.setup_render")
     rs = find_node(sr, lambda n: isinstance(n, ast.Assign) and unparse(n.targets[0]) == "self._inventories" and isinstance(n.value, ast.Constant) and n.value.value is None)
